@@ -14,7 +14,7 @@ use anda_cognitive_nexus::{
     governance::{
         AuthContext, SYSTEM_PRINCIPAL,
         rows::*,
-        store::{GrantDraft, PolicyDraft},
+        store::{DelegationDraft, GrantDraft, PolicyDraft},
     },
 };
 use h_common::*;
@@ -354,6 +354,96 @@ async fn answer(b: &Built, principal: &str, cmd: &str, strip_scores: bool) -> Va
     }
 }
 
+
+/// Engine level, delegation: whatever a delegate can read through a direct Delegation, its
+/// delegator can read now. Delegators hold two delegable Grants of different shapes (a narrow one
+/// carrying `read`, a broad one that does not); Delegations fit the narrow Grant or exceed it.
+async fn delegation_engine(rng: &mut Rng, failures: &mut Vec<Value>, dist: &mut BTreeMap<String, u64>, evaluations: &mut u64, keys: &mut Vec<String>, rounds: usize) {
+    for round in 0..rounds {
+        let nexus = stocked(&format!("c19_ni_deleg_{round}")).await;
+        let owner = nexus.system_session();
+        let labels = ["public", "secret", "", "private", "public", "internal"];
+        let mut n_c = 0u64;
+        for (i, label) in labels.iter().enumerate() {
+            let ty = if i % 2 == 0 { "Person" } else { "Preference" };
+            let r = run_as(&owner, &format!(r#"CREATE CONCEPT ?c {{ TYPE "{ty}" NAME "{} Note {i}" }}"#, rng.pick(&WORDS))).await.unwrap();
+            if !error_code(&r).is_empty() { continue; }
+            n_c += 1;
+            if !label.is_empty() { owner.classify(SPACE, ElementId::new(anda_kip::ElementKind::Concept, n_c), label).await.unwrap(); }
+        }
+        for (i, label) in ["private", "public"].iter().enumerate() {
+            let _ = run_as(&owner, &format!(r#"CREATE EVIDENCE ?e {{ SET FIELDS {{evidence_class: "Document", payload: "{} Note e{i}"}} }}"#, rng.pick(&WORDS))).await.unwrap();
+            owner.classify(SPACE, ElementId::new(anda_kip::ElementKind::Evidence, i as u64 + 1), label).await.unwrap();
+        }
+        let gov = nexus.governance();
+        let q = "kip:principal:q";
+        agent(gov, q).await;
+        let reads: Vec<String> = ["read", "search", "discover"].iter().map(|x| x.to_string()).collect();
+        let mut narrow = GrantDraft { space_id: SPACE.into(), grantee_principal: q.into(), actions: reads.clone(), delegation_allowed: true, ..Default::default() };
+        let shape = round % 3;
+        match shape {
+            0 => narrow.constraints.max_classification = "public".into(),
+            1 => narrow.scope.kinds = vec!["evidence".into()],
+            _ => narrow.scope.classifications = vec!["public".into(), "internal".into()],
+        }
+        let mut broad = GrantDraft { space_id: SPACE.into(), grantee_principal: q.into(), actions: vec!["export".into(), "read_history".into()], delegation_allowed: true, ..Default::default() };
+        broad.constraints.export = true;
+        if rng.chance(1, 2) { gov.create_grant(narrow.clone(), SYSTEM_PRINCIPAL).await.unwrap(); gov.create_grant(broad.clone(), SYSTEM_PRINCIPAL).await.unwrap(); }
+        else { gov.create_grant(broad.clone(), SYSTEM_PRINCIPAL).await.unwrap(); gov.create_grant(narrow.clone(), SYSTEM_PRINCIPAL).await.unwrap(); }
+        let delegates = [("kip:principal:fit", true), ("kip:principal:wide", false)];
+        for (d, fits) in delegates {
+            agent(gov, d).await;
+            let mut draft = DelegationDraft { space_id: SPACE.into(), delegator_principal: q.into(), delegate_principal: d.into(), actions: reads.clone(), ..Default::default() };
+            if fits { draft.scope = narrow.scope.clone(); draft.conditions = narrow.conditions.clone(); draft.constraints = narrow.constraints.clone(); }
+            gov.create_delegation(draft, q).await.unwrap();
+        }
+        *dist.entry(format!("delegation-shape:{shape}")).or_default() += 1;
+        let cmds = [
+            r#"FIND(?c.id) WHERE { ?c CONCEPT {} } ORDER BY ?c.id"#,
+            r#"FIND(?c.id) WHERE { ?c CONCEPT {type: "Person"} } ORDER BY ?c.id"#,
+            r#"FIND(?e.id) WHERE { ?e EVIDENCE {} } ORDER BY ?e.id"#,
+            r#"SEARCH CONCEPT "Note""#,
+            r#"SEARCH EVIDENCE "Note""#,
+        ];
+        fn ids_in(v: &Value, out: &mut std::collections::BTreeSet<String>) {
+            match v {
+                Value::String(s) => {
+                    let b = s.as_bytes();
+                    if b.len() >= 3 && b[0].is_ascii_uppercase() && b[1] == b'-' && s[2..].chars().all(|c| c.is_ascii_digit()) { out.insert(s.clone()); }
+                }
+                Value::Array(a) => a.iter().for_each(|x| ids_in(x, out)),
+                Value::Object(m) => m.values().for_each(|x| ids_in(x, out)),
+                _ => {}
+            }
+        }
+        let mut seen_q: Vec<std::collections::BTreeSet<String>> = Vec::new();
+        for cmd in cmds {
+            let r = run_as(&nexus.session(AuthContext::principal(q)), cmd).await.unwrap();
+            let mut set = std::collections::BTreeSet::new();
+            if error_code(&r).is_empty() { for x in &r.results { if let Some(res) = &x.result { ids_in(res, &mut set); } } }
+            seen_q.push(set);
+            *evaluations += 1;
+        }
+        for (d, fits) in delegates {
+            for (k, cmd) in cmds.iter().enumerate() {
+                let r = run_as(&nexus.session(AuthContext::principal(d)), cmd).await.unwrap();
+                let code = error_code(&r);
+                let mut set = std::collections::BTreeSet::new();
+                if code.is_empty() { for x in &r.results { if let Some(res) = &x.result { ids_in(res, &mut set); } } }
+                *evaluations += 1;
+                keys.push(format!("deleg|{shape}|{fits}|{cmd}|{}", set.len()));
+                let extra: Vec<&String> = set.difference(&seen_q[k]).collect();
+                if !extra.is_empty() {
+                    failures.push(json!({"what": "delegate-reads-what-delegator-cannot", "command": cmd, "delegate": d, "delegator": q,
+                        "delegator_grants": [format!("{:?}", narrow), format!("{:?}", broad)],
+                        "delegation": if fits { "bounds equal to the narrow Grant" } else { "bounds left unstated (wider than the narrow Grant, inside the broad one)" },
+                        "delegate_sees": set, "delegator_sees": seen_q[k], "only_the_delegate_sees": extra, "shape": format!("{shape}"), "versus": "delegator", "scenario": round}));
+                }
+            }
+        }
+    }
+}
+
 pub async fn main(args: &[String]) {
     let out_path = arg_value(args, "--out").expect("--out");
     let scenarios: usize = arg_value(args, "--scenarios").and_then(|x| x.parse().ok()).unwrap_or(6);
@@ -445,6 +535,7 @@ pub async fn main(args: &[String]) {
             }
         }
     }
+    delegation_engine(&mut rng, &mut failures, &mut dist, &mut evaluations, &mut keys, if scenarios > 12 { 12 } else { 3 }).await;
     // one failure per class and command family is enough for the report
     let mut seen = std::collections::BTreeSet::new();
     failures.retain(|f| seen.insert(format!("{}|{}", f["what"].as_str().unwrap_or(""), f["command"].as_str().unwrap_or("").split(' ').next().unwrap_or(""))));
